@@ -185,6 +185,7 @@ func runC04(c *Ctx) {
 	ruleEqualityHelper(c, "EQUALITY-HELPER", checkPkgs(p))
 	c03DefaultFromDefault(c, "DEFAULT-RESOLVED", pkH)
 	c03CompareFirst(c, "COMPARE-FIRST", pkH)
+	c04WireSiblingsAgree(c, pkH)
 	c03ReservedMeansReserved(c, "RESERVED-MEANS-RESERVED", pkH)
 	c03NoCountShortcut(c, l, "NO-COUNT-SHORTCUT")
 	c04Extra(c)
